@@ -180,9 +180,39 @@ def _check_dominated(rc: RuleCtx, fi, w: ast.While, stack_name: str, ev, env) ->
     return False
 
 
+def _through_wrapper(rc: RuleCtx, fi):
+    """`def f(points): return _worker(points, <constants>)`: the worker and the values its other parameters are bound to (two
+    near-identical scans folded into one function with a flag are read as that function with the flag fixed)."""
+    body = [st for st in fi.node.body if not (isinstance(st, ast.Expr) and isinstance(st.value, ast.Constant))]
+    if len(body) != 1 or not isinstance(body[0], ast.Return) or not isinstance(body[0].value, ast.Call):
+        return fi, {}, fi.signature.positional[0] if fi.signature.positional else "points"
+    call = body[0].value
+    r = rc.lk.resolve(fi.module, call.func)
+    if r.kind != "func" or r.obj is None or not call.args or not isinstance(call.args[0], ast.Name) or call.args[0].id != fi.signature.positional[0]:
+        return fi, {}, fi.signature.positional[0]
+    worker = r.obj
+    pos = worker.signature.positional
+    bound = {}
+    for i_, a_ in enumerate(call.args[1:], 1):
+        if not isinstance(a_, ast.Constant) or i_ >= len(pos):
+            return fi, {}, fi.signature.positional[0]
+        bound[pos[i_]] = a_.value
+    for kw in call.keywords:
+        if kw.arg is None or not isinstance(kw.value, ast.Constant):
+            return fi, {}, fi.signature.positional[0]
+        bound[kw.arg] = kw.value.value
+    vals = {}
+    for k_, v_ in bound.items():
+        vals[k_] = (TRUE if v_ else FALSE) if isinstance(v_, bool) else (Obj("none") if v_ is None else C(v_) if isinstance(v_, (int, float)) else None)
+        if vals[k_] is None:
+            return fi, {}, fi.signature.positional[0]
+    return worker, vals, pos[0]
+
+
 def _chain(rc: RuleCtx, name: str, pop_signs):
     res = rc.res
     fi = rc.func(f"convex_hull.{name}")
+    fi, bound, pname = _through_wrapper(rc, fi)
     mod = fi.module
     ev = rc.new_eval()
     pts = ev.point("points", True)
@@ -192,7 +222,8 @@ def _chain(rc: RuleCtx, name: str, pop_signs):
         raise AnalysisError(f"{fi.qualname}: expected one scan loop")
     loop = fors[0]
     k = fi.node.body.index(loop)
-    env = {"points": pts}
+    env = {pname: pts}
+    env.update(bound)
     fr = Frame(ev, fi, 0)
     fr.block(fi.node.body[:k], env, TRUE)
     seeds = [(nme, v) for nme, v in env.items() if isinstance(v, Vec) and v.kind == "list"]
